@@ -7,7 +7,7 @@ from concurrent.futures import ThreadPoolExecutor
 import gen, l2c, scrape, vlib
 
 TESTS = os.path.join(vlib.REPO, "tests")
-KNOWN = {2: "K_interleave", 3: "K_objarr_after_out", 4: "K_no_limit", 5: "K_pad_bundle"}
+KNOWN = {2: "K_interleave", 3: "K_objarr_after_out", 4: "K_no_limit", 5: "K_pad_bundle"}   # 4 cannot occur any more: the repaired Counter rejects such methods
 
 
 def gen_batch(rng, nmethods=12):
@@ -35,6 +35,8 @@ def gen_batch(rng, nmethods=12):
         for d in ("in", "out"):
             if objarr[d] > 1 or (objarr[d] and objval[d]):
                 ok = False
+        if ok and max(l2c.ref_counts(ctx, ps)) > 15:
+            ok = False          # more than 15 slots of a class: rejected by the Counter (checked by C02 at L0)
         if ok:
             methods.append(("m%d" % len(methods), ps))
     decls.append(("iface", "IL2", None, [("method", n, ps, False, None) for n, ps in methods]))
